@@ -109,7 +109,19 @@ def build(s):
                 data = sim.generate_body_velocity_measurements(rows, sd, 11 + k) if ticks else None
             if data is None:
                 data = pd.DataFrame(np.empty((0, 3)), columns=cols)
-            data = pd.DataFrame(np.asarray(data, dtype=float), index=index, columns=cols)
+            arr = np.array(data, dtype=float)
+            # measured VALUES that repeat exactly while the stamps stay distinct (held / quantised receiver
+            # output, surveyed constant position, zero-velocity updates): every sample is still one sample
+            mode = (s.get('values') or [])[k] if k < len(s.get('values') or []) else 'random'
+            if len(arr):
+                if mode == 'const':
+                    arr[:] = arr[0]
+                elif mode == 'zero':
+                    arr[:] = 0.0 if cls == 'BodyVelocity' else arr[0]
+                elif mode == 'blocks':
+                    for i in range(len(arr)):
+                        arr[i] = arr[i - i % 3]
+            data = pd.DataFrame(arr, index=index, columns=cols)
             if s.get('lever') and cls != 'BodyVelocity':
                 meas.append(getattr(measurements, cls)(data, sd, np.array([0.5, 0.1, -0.2])))
             else:
@@ -490,6 +502,15 @@ def gen_schedule(rng, kind, nmax=24):
     models = rng.choices([0, 1, 2], [5, 3, 2])[0]
     s = dict(filter=kind, epochs=ep, sensors=sensors, meas_mode=mode, step=step, alt=alt, models=models,
              lever=lever)
+    if sensors:
+        s['values'] = []
+        for c, ts in sensors:
+            v = rng.choices(['random', 'const', 'blocks', 'zero'], [11, 4, 3, 2])[0]
+            if v == 'zero' and c != 'BodyVelocity':
+                v = 'const'
+            s['values'].append(v)
+            if len(ts) >= 2:
+                cats.append('values:' + v)
     if kind == 'ff':
         s['increments'] = bool(models == 2 or rng.random() < 0.5)
         cats.append('increments:' + ('yes' if s['increments'] else 'no'))
@@ -532,6 +553,7 @@ def exhaustive_small(kind, seed):
                 s = dict(filter=kind, epochs=ep, sensors=sensors, meas_mode='list',
                          step=steps[c % len(steps)], alt=bool(c % 2), models=0,
                          cats=[f'small:n={n},stamps={m}'])
+                s['values'] = [('random', 'const', 'blocks')[(c // 3) % 3], ('const', 'random', 'blocks')[(c // 5) % 3]]
                 if kind == 'ff':
                     s['increments'] = bool((c // 2) % 2)
                     if s['increments'] and (c // 4) % 2 and n >= 2:
@@ -545,7 +567,7 @@ def key_of(s):
     return (s['filter'], tuple(t - t0 for t in s['epochs']),
             tuple((c, tuple(t - t0 for t in ts)) for c, ts in s['sensors']), s['meas_mode'], s['step'],
             s['alt'], s['models'], s.get('increments'), bool(s.get('lever')),
-            tuple(t - t0 for t in s.get('inc_epochs') or ()))
+            tuple(t - t0 for t in s.get('inc_epochs') or ()), tuple(s.get('values') or ()))
 
 
 # --------------------------------------------------------------------------------------
@@ -729,6 +751,8 @@ def shrink(s, pred=None, budget=160):
         for k in range(len(s['sensors'])):
             c = json.loads(json.dumps(s))
             del c['sensors'][k]
+            if c.get('values'):
+                del c['values'][k:k + 1]
             if not c['sensors']:
                 c['meas_mode'] = 'empty'
             cands.append(c)
@@ -746,6 +770,10 @@ def shrink(s, pred=None, budget=160):
                     if len(c['inc_epochs']) < 2:
                         continue
                 cands.append(c)
+        if s.get('values') and any(v != 'random' for v in s['values']):
+            c = json.loads(json.dumps(s))
+            del c['values']
+            cands.append(c)
         if s.get('inc_epochs'):
             c = json.loads(json.dumps(s))
             del c['inc_epochs']
@@ -840,6 +868,11 @@ def corpus(kind):
         dict(filter=kind, epochs=ep, meas_mode='list', step=200, alt=True, models=1, lever=True,
              sensors=[['BodyVelocity', [513, 514, 560]], ['NedVelocity', [514, 607]], ['Position', [608]]]),
     ]
+    # tables whose VALUES repeat exactly on distinct stamps: zero-velocity updates, a held position, blocks
+    out.append(dict(filter=kind, epochs=ep, meas_mode='list', step=16, alt=True, models=0, lever=False,
+                    sensors=[['BodyVelocity', [512, 520, 528, 550, 607]], ['Position', [500, 516, 544, 545, 590]],
+                             ['NedVelocity', [513, 529, 530, 560, 561, 575, 608]]],
+                    values=['zero', 'const', 'blocks']))
     for i, s in enumerate(out):
         s['cats'] = ['corpus']
         if kind == 'ff':
